@@ -15,7 +15,8 @@ RULE = ("grid: for list sizes 1..N and n_cpu 1..16 (every ratio of list size to 
         "with brute force when max_returns is None; (ii) with max_returns=m, per query: count == min(m, true degree), every "
         "reported triplet is a true neighbour with exact d, and max(reported d) <= min(d of omitted true neighbours). "
         "Non-trivial: n_cpu >= 2 with len % n_cpu != 0 or n_cpu > len, or compression >= 2 with two letters of the input sharing "
-        "a bin, or max_returns smaller than some sequence's degree.")
+        "a bin, or max_returns smaller than some sequence's degree."
+        " Also: runs of 127-300 equal (or same-bin) residues under compressions 1/2/10/20/25 (histogram coordinates around 128 and 256).")
 ASSUMPTIONS = ["process pools use the fork start method (Linux default): workers inherit the module-level parameter block",
                "Pool.map returns results in submission order, so the observable schedule dimension is the chunking (len, n_cpu); "
                "OS-level interleaving of workers is not controlled by the harness"]
@@ -134,6 +135,25 @@ def enum_dense(tier):
         yield {"seqs": dense_seqs(80), "k": 2, "mode": "default", "n_cpu": 2, "max_returns": 5, "compression": comp}
 
 
+def long_run_seqs(L, c, o, style):
+    """Sequences dominated by one residue (or by two residues that share a histogram bin under compression), lengths around L."""
+    if style == "mono":
+        return [c * L, c * (L + 1), c * (L - 1) + o, o + c * L, c * (L // 2) + o + c * (L - L // 2), c * (L + 2), "CAS" + c * L + "F", "CAS" + c * (L + 1) + "F"]
+    h = L // 2
+    return [c * h + o * (L - h), c * h + o * (L - h + 1), c * (h + 1) + o * (L - h), c * h + o * (L - h - 1) + c, o * (L - h) + c * h, c * (h - 1) + o * (L - h + 1)]
+
+
+def enum_long_runs(tier):
+    """Histogram coordinates around 127/128 and 255/256 (a narrow counter wraps there), for several compressions: with
+    compression >= 20 every residue falls into one bin, with 10..19 'A' and 'C' share one, with 1 only a homopolymer gets there."""
+    Ls = [255, 256] if tier == "quick" else [127, 128, 129, 254, 255, 256, 257, 300]
+    for idx, L in enumerate(Ls):
+        for j, comp in enumerate([1, 2, 10, 20, 25] if tier == "thorough" else [1, 10, 20, 25]):
+            style = "mono" if comp in (1, 2) or (idx + j) % 2 else "pair"
+            mode = ["default", "hamming", "default"][(idx + j) % 3]
+            yield {"seqs": long_run_seqs(L, "A", "C", style), "k": 1 + (idx + j) % 2, "mode": mode, "compression": comp, "n_cpu": 1 + (j % 2)}
+
+
 def enum_grid(tier):
     if tier == "quick":
         sizes = [1, 2, 3, 4, 5, 7, 9, 12, 16, 17, 23]
@@ -179,5 +199,6 @@ def random_case(draw, tier="quick"):
 SUBS = [
     Sub("grid", check, enum=enum_grid),
     Sub("dense", check, enum=enum_dense),
+    Sub("long_runs", check, enum=enum_long_runs),
     Sub("random", check, strategy=lambda tier: random_case(tier), budget=(900, 9000)),
 ]
